@@ -121,13 +121,15 @@ static int upipe_row_join_set_flow_def(struct upipe *upipe,
         return UBASE_ERR_INVALID;
     UBASE_RETURN(uref_flow_match_def(flow_def, "pic."))
 
-    upipe_row_join_require_ubuf_mgr(upipe, flow_def);
-
     UBASE_RETURN(uref_pic_flow_get_hsize(flow_def, &ctx->output_width));
     UBASE_RETURN(uref_pic_flow_get_vsize(flow_def, &ctx->output_height));
     struct urational fps;
     UBASE_RETURN(uref_pic_flow_get_fps(flow_def, &fps));
     ctx->output_duration = fps.den * UCLOCK_FREQ / fps.num;
+
+    struct uref *flow_def_dup = uref_dup(flow_def);
+    UBASE_ALLOC_RETURN(flow_def_dup)
+    upipe_row_join_require_ubuf_mgr(upipe, flow_def_dup);
 
     return UBASE_ERR_NONE;
 }
